@@ -3879,6 +3879,8 @@ class OptionalNode(ActionSinkNode):
 
     def convert(self, current_error_handlers):
         sub_dfa = self.sub_contents.convert(current_error_handlers)
+        if isinstance(sub_dfa.starting_state, DFProxyState):
+            raise IllegalDFAStateError("Optional must begin with a match statement", sub_dfa.starting_state)
         if sub_dfa.starting_state in sub_dfa.accepting_states:
             raise IllegalDFAStateError("Ambigious path in optional: should use optional or go to next", sub_dfa.starting_state)
 
